@@ -12,6 +12,7 @@ from __future__ import annotations
 
 import json
 import os
+import zlib
 import random
 import shutil
 from multiprocessing import get_context
@@ -155,7 +156,8 @@ def run_case(case):
                     op = {**op, "relink": False}
                 before = w.observe_ws()
                 wsj, cj, _o = snap()
-                sp = op.get("sp") or ("plain", "slash")[(case["id"] + i) % 2]
+                # (a hash of the case id, not its parity: link type, store class, state and read-only follow the id's residues)
+                sp = op.get("sp") or ("plain", "slash")[zlib.crc32(f"{case['id']}:{i}".encode()) % 2]
                 events.append({"act": {"op": "Begin", "t": op["t"], "force": op["force"], "relink": op["relink"],
                                        "prompt": op["prompt"], "state": bool(case["state"]), "sp": sp}, "ws": wsj, "cache": cj, "flags": {}})
                 # the Begin event is logged before the call: its observable effect (dropping corrupt objects) is
@@ -248,7 +250,8 @@ def make_cases(gen, rng, n, focus):
         relink = rng.random() < (0.5 if focus == "C10" else 0.2)
         prompt = rng.choice(["absent", "absent", "declines", "accepts"])
         op = {"t": t, "force": force, "relink": relink, "prompt": prompt}
-        cases.append({"id": i, "link": link, "cls": ["local", "generic"][i % 2], "state": i % 4 != 3, "ro": i % 5 == 4,
+        # (the store class by a hash of the id: its parity is tied to `state`, which follows i % 4)
+        cases.append({"id": i, "link": link, "cls": ["local", "generic"][zlib.crc32(b"cls%d" % i) % 2], "state": i % 4 != 3, "ro": i % 5 == 4,
                       "init": {"ws": ws, "cache": cache, "dirobjs": dirobjs}, "ops": [op]})
     return cases
 
